@@ -6,7 +6,12 @@
 export GOFLAGS=-mod=mod GOPROXY=off GOSUMDB=off GOTOOLCHAIN=local
 PAT=${1:-}
 ROOT=/tmp/corpus.$$
-mkdir -p $ROOT
+mkdir -p $ROOT/frozen
+# frozen copies: the run is not disturbed by later rebuilds, baselines or commits in /repo
+cp /verif/bin/govc $ROOT/frozen/govc
+cp -r /verif/baseline $ROOT/frozen/baseline
+cp /verif/known_findings.jsonl $ROOT/frozen/known_findings.jsonl
+export CORPUS_SHA=$(git -C /repo rev-parse HEAD)
 JOBS=${JOBS:-3}
 run_one() {
   NAME=$1; ROOT=$2
@@ -18,11 +23,11 @@ cs=m.get('confirmed_by_me',{}).get('checks',[])
 print(' '.join(c.split(':')[0] for c in cs))")
   [ -z "$PROPS" ] && { echo "SKIP $NAME (no check recorded as catching it)"; return; }
   WT=$ROOT/wt_$NAME
-  git -C /repo worktree add -q --detach $WT HEAD 2>/dev/null || { echo "ERROR $NAME worktree"; return; }
+  git -C /repo worktree add -q --detach $WT $CORPUS_SHA 2>/dev/null || { echo "ERROR $NAME worktree"; return; }
   if ! git -C $WT apply $D/patch.diff 2>/dev/null; then echo "ERROR $NAME patch does not apply"; git -C /repo worktree remove --force $WT; return; fi
   RES=""; HIT=0
   for P in $PROPS; do
-    GOVC_REPO=$WT GOVC_OUT=$ROOT/out_$NAME /verif/bin/govc check $P > $ROOT/$NAME.$P.txt 2>&1; RC=$?
+    GOVC_REPO=$WT GOVC_OUT=$ROOT/out_$NAME GOVC_FROZEN=$ROOT/frozen $ROOT/frozen/govc check $P > $ROOT/$NAME.$P.txt 2>&1; RC=$?
     V=$(grep -c "^VIOLATION" $ROOT/$NAME.$P.txt)
     RES="$RES $P:exit$RC:violations=$V"
     if [ $RC -eq 1 ] && [ $V -gt 0 ]; then HIT=1; fi
